@@ -164,6 +164,10 @@ def templates():
         ('deep-parens', ';' + '(' * 60 + '1' + ')' * 60 + '\n', None, None),
         ('long-chain', ';' + '+'.join(['1'] * 200) + '\n', None, None),
         ('long-label-chain', 'LL:\n;' + '+'.join(['LL'] * 300) + '\n', None, None),
+        ('long-label-chain-600', 'LL:\n;' + '+'.join(['LL'] * 600) + '\n', None, None),
+        ('long-label-chain-3000', 'LL:\n;' + '+'.join(['LL'] * 3000) + '\n', None, None),
+        ('long-label-chain-in-wflip-3000', 'LL:\nwflip LL, ' + '+'.join(['LL'] * 3000) + '\n', None, None),
+        ('long-minus-chain-3000', 'LL:\n;LL' + '-1' * 3000 + '\n', None, None),
         ('too-many-ops-w8', ';\n' * 40, None, None),
     ]
     return T
